@@ -103,7 +103,7 @@ def native_build(crate, profile):
     cmd = ["cargo", "build", "--offline", "--bin", "replay"] + (["--release"] if profile == "release" else [])
     log = os.path.join(C.CACHE, "native-%s-%s.log" % (crate, profile))
     os.makedirs(C.CACHE, exist_ok=True)
-    rc, to, _ = _run(cmd, os.path.join(KANI_DIR, crate), log, 900, {"CARGO_TARGET_DIR": tdir}, limit=False)
+    rc, to, _ = _run(cmd, C.crate_dir("kani/" + crate), log, 900, {"CARGO_TARGET_DIR": tdir}, limit=False)
     if rc != 0:
         return None
     return os.path.join(tdir, "release" if profile == "release" else "debug", "replay")
@@ -137,7 +137,7 @@ def run_harness(crate, h, slot, logdir, playback=False):
     if playback:
         cmd[2:2] = ["-Z", "concrete-playback", "--concrete-playback=print"]
     log = os.path.join(logdir, "%s-%s%s.log" % (crate, h.name, "-pb" if playback else ""))
-    rc, to, wall = _run(cmd, os.path.join(KANI_DIR, crate), log, h.cap * (3 if playback else 1))
+    rc, to, wall = _run(cmd, C.crate_dir("kani/" + crate), log, h.cap * (3 if playback else 1))
     with open(log, errors="replace") as f:
         txt = f.read()
     r = parse(txt)
